@@ -215,7 +215,13 @@ def run(tier, seed):
         imposed = rnd.choice([None, None, [3, 2, 3]])
         rec.case("depth3", (spec_key(spec), desc, repr(imposed)))
         check(rec, "depth3", 3, 2, spec, desc, imposed)
-    # at scale: long fibers and large dimensions (several mask words / cache lines, binary searches of depth 5+)
+    # at scale: long fibers and large dimensions (several mask words / cache lines, binary searches of depth 5+);
+    # first the word / line boundaries of the bit-vector layout (32-bit words, 128-bit lines), then random fibers
+    for dim, cs in ((300, [127, 130, 200, 299]), (130, [127]), (260, [0, 31, 32, 127, 128, 255, 256]), (129, [128]), (64, [31, 32, 63])):
+        spec = {c: 1 + (c % 3) for c in cs}
+        for desc in (("B",), ("C",), ("U",)):
+            rec.case("scale", ("boundary", dim, tuple(cs), desc))
+            check(rec, "scale", 1, dim, spec, desc, None)
     for _ in range(40 if tier == "quick" else 500):
         dim = rnd.choice([40, 130, 300])
         cnt = rnd.choice([1, 4, 12, 30])
